@@ -24,6 +24,7 @@ import (
 //   - critical victim: the environment leaves its healthy state and ends in ERROR - never an undocumented state -
 //     and, if it was RUNNING, the end of the run is recorded;
 //   - non-critical victim: the environment's state does not change.
+//
 //verif:entry HarnessCriticalTaskFailure unwind=96 preempt=1 lazyarrive=1 timers=lazy reach=error,unchanged stub=github.com/AliceO2Group/Control/common/utils.TimeTrack nosched=github.com/AliceO2Group/Control/core/the.mu steps=8000000
 func HarnessCriticalTaskFailure() {
 	c03Failure(0)
@@ -32,6 +33,7 @@ func HarnessCriticalTaskFailure() {
 // The same failure of a critical task at the very moment the watcher starts (right after deployment and
 // configuration, when the environment is created): whatever the interleaving of the watcher's first steps with the
 // failure, the environment ends in ERROR.
+//
 //verif:entry HarnessFailureAtWatcherStart unwind=96 preempt=2 lazyarrive=1 timers=lazy reach=error stub=github.com/AliceO2Group/Control/common/utils.TimeTrack nosched=github.com/AliceO2Group/Control/core/the.mu steps=8000000
 func HarnessFailureAtWatcherStart() {
 	c03Failure(1)
@@ -40,13 +42,23 @@ func HarnessFailureAtWatcherStart() {
 // The failure is announced by the task itself: the executor forwards a TASK_INTERNAL_ERROR device event, which the
 // environment manager handles (handleDeviceEvent). Critical victim: the environment ends in ERROR; non-critical
 // victim: its state does not change.
+//
 //verif:entry HarnessTaskAnnouncesInternalError unwind=96 preempt=1 timers=lazy reach=error,unchanged stub=github.com/AliceO2Group/Control/common/utils.TimeTrack nosched=github.com/AliceO2Group/Control/core/the.mu steps=8000000
 func HarnessTaskAnnouncesInternalError() {
 	c03Failure(2)
 }
 
+// The internal error is announced while a transition of the environment is in progress (START_ACTIVITY or
+// STOP_ACTIVITY, in the middle of its task part): once the transition is over and time has passed, the environment is
+// in ERROR.
+//
+//verif:entry HarnessInternalErrorDuringATransition unwind=96 preempt=1 timers=lazy reach=error stub=github.com/AliceO2Group/Control/common/utils.TimeTrack nosched=github.com/AliceO2Group/Control/core/the.mu steps=8000000
+func HarnessInternalErrorDuringATransition() {
+	c03Failure(3)
+}
+
 func c03Failure(mode int) {
-	atStart, deviceEvent := mode == 1, mode == 2
+	atStart, deviceEvent, duringTransition := mode == 1, mode == 2 || mode == 3, mode == 3
 	running := vrt.Bool("running")
 	state := "CONFIGURED"
 	taskState := sm.CONFIGURED
@@ -54,7 +66,9 @@ func c03Failure(mode int) {
 		state, taskState = "RUNNING", sm.RUNNING
 	}
 	victimCritical, noiseFirst, goErrorHookFails, flap := true, false, false, false
-	if deviceEvent {
+	if duringTransition {
+		victimCritical = true
+	} else if deviceEvent {
 		victimCritical = vrt.Bool("victim.critical")
 	} else if !atStart {
 		victimCritical = vrt.Bool("victim.critical")
@@ -109,7 +123,23 @@ func c03Failure(mode int) {
 	if deviceEvent {
 		t := world.Tasks[0]
 		origin := event.DeviceEventOrigin{TaskId: mesos.TaskID{Value: t.GetTaskId()}, AgentId: mesos.AgentID{Value: t.GetAgentId()}, ExecutorId: mesos.ExecutorID{Value: t.GetExecutorId()}}
-		envs.handleDeviceEvent(event.NewDeviceEvent(origin, occpb.DeviceEventType_TASK_INTERNAL_ERROR))
+		announce := func() {
+			envs.handleDeviceEvent(event.NewDeviceEvent(origin, occpb.DeviceEventType_TASK_INTERNAL_ERROR))
+		}
+		if duringTransition {
+			name := "START_ACTIVITY"
+			if running {
+				name = "STOP_ACTIVITY"
+			}
+			err := env.TryTransition(fenvTransition{name: name, rec: rec, body: func(*Environment) {
+				announce()
+				vrt.WaitQuiescent(20 * time.Millisecond) // whatever the announcement sets off has happened before the task part ends
+			}})
+			vrt.Assert(err == nil, "the-transition-in-progress-completes")
+			state = env.CurrentState()
+		} else {
+			announce()
+		}
 	} else {
 		victim.(workflow.PublicUpdatable).UpdateState(sm.ERROR)
 	}
